@@ -131,11 +131,81 @@ fn attempt(w: &mut ItsWorld, a: &Attempt, rollback: bool) -> Result<CallOut<()>,
     res
 }
 
+/// A service wired to a stand-in gateway that answers `validate_message` with a configurable
+/// value: the service may act only when the answer is the boolean true. Anything else - false, or
+/// a value that is not a boolean at all - is not an approval.
+fn standin_gateway(rep: &mut Report, rng: &mut Rng) {
+    use crate::probes::pgateway::{ProbeGateway, ProbeGatewayClient};
+    use interchain_token_service::{InterchainTokenService, InterchainTokenServiceClient};
+    use soroban_sdk::{IntoVal, Val};
+    let mut u = U::new();
+    let owner = u.principal();
+    let recipient = u.principal();
+    let dummy = u.principal();
+    let pg = u.env.register(ProbeGateway, ());
+    let env = u.env.clone();
+    let its2 = env.register(InterchainTokenService, (&owner, &pg, &dummy, sstr(&env, b"hub"), sstr(&env, b"stellar"), native_hash(&env)));
+    let admin = u.principal();
+    let sac = make_token(&mut u, TokKind::Sac, &admin, rng);
+    let (i2, t2) = (its2.clone(), sac.addr.clone());
+    let id: [u8; 32] = u.setup(move |env| {
+        let c = InterchainTokenServiceClient::new(env, &i2);
+        c.set_trusted_chain(&sstr(env, b"Ethereum-X"));
+        c.register_canonical_token(&t2).to_array()
+    });
+    mint(&mut u, &sac, &its2, 1000);
+    u.skip_events();
+    let payload = MHubMsg { to_hub: false, chain: b"Ethereum-X".to_vec(), inner: MItsMsg::Transfer { token_id: id, source: b"0xsrc".to_vec(), dest: addr_bytes(&recipient), amount: 10, amount_hi: 0, data: vec![] } }.encode();
+    let answers: Vec<(&str, Val)> = vec![
+        ("bool-true", true.into_val(&env)),
+        ("bool-false", false.into_val(&env)),
+        ("void", Val::VOID.to_val()),
+        ("u32-0", 0u32.into_val(&env)),
+        ("u32-1", 1u32.into_val(&env)),
+        ("i128-1", 1i128.into_val(&env)),
+        ("string-true", sstr(&env, b"true").to_val()),
+        ("symbol-true", soroban_sdk::Symbol::new(&env, "true").to_val()),
+    ];
+    for (class, v) in answers {
+        let ck = u.checkpoint();
+        let pg2 = pg.clone();
+        u.setup(move |env| ProbeGatewayClient::new(env, &pg2).set_answer(&v));
+        u.skip_events();
+        let before = balance(&mut u, &sac.addr, &recipient);
+        let (i2, p2) = (its2.clone(), payload.clone());
+        let o = u.call(Auth::Nobody, &move |env: &Env| {
+            let c = axelar_gateway::executable::AxelarExecutableClient::new(env, &i2);
+            flat(c.try_execute(&sstr(env, HUB_CHAIN), &sstr(env, b"m-1"), &sstr(env, b"hub"), &sbytes(env, &p2)))
+        });
+        let after = balance(&mut u, &sac.addr, &recipient);
+        rep.count(&format!("standin-gateway-answer:{}", class));
+        rep.eval("standin-gateway", &format!("standin|{}|{}", class, o.ok()), true);
+        rep.step(format!("stand-in gateway answers {} -> ok={} credited={}", class, o.ok(), after - before));
+        let leak = o.leak.clone();
+        u.restore(&ck);
+        if let Some(l) = leak {
+            rep.violation("rejected-delivery-left-trace:standin-gateway", l);
+            return;
+        }
+        let want = class == "bool-true";
+        if o.ok() != want || (after - before != if want { 10 } else { 0 }) {
+            rep.violation(
+                &format!("standin-gateway:{}:{}", class, if o.ok() { "accepted" } else { "refused" }),
+                format!("the gateway answered {} to validate_message; the service's execute -> ok={}, credited {}", class, o.ok(), after - before),
+            );
+            return;
+        }
+    }
+}
+
 pub fn run(ctx: &Ctx, rep: &mut Report) {
     let total = ctx.universes(640, 30000);
     for uni in ctx.my_universes(total) {
         let mut rng = ctx.rng_for(uni);
         rep.begin_universe(uni);
+        if uni % 8 == 0 {
+            standin_gateway(rep, &mut rng);
+        }
         let hub_addr: Vec<u8> = rng.pick(&[b"axelar1hubaddressxyz".to_vec(), b"hub".to_vec()]).clone();
         let mut w = ItsWorld::new(&mut rng, b"stellar", &hub_addr, 3);
         w.trust(b"ethereum");
@@ -600,5 +670,5 @@ pub fn run(ctx: &Ctx, rep: &mut Report) {
     req.extend(KINDS.iter().map(|k| format!("conforming:{}", k)));
     rep.notes.insert("required".into(), json!(req));
     rep.notes.insert("token_mode".into(), json!("native"));
-    rep.notes.insert("rule".into(), json!("per universe 5 rounds: a conforming delivery (transfer to a service-deployed token, release of a locked canonical asset, transfer with data to a destination application, remote deploy; origin chain drawn from the currently trusted chains while one chain's trust flips between rounds) and, before it, 13 of 31 single deviations, each delivered at a checkpoint together with the approval that matches it in every other respect: never approved, approved for other payload / id / source address / contract, approved for a (chain, id) pair that only coincides when joined with a delimiter, source chain or source address not the hub's, send-to-hub or out-of-range outer type, unsupported inner type, type words whose low byte is a supported tag but whose higher bytes are not zero, origin never trusted or no longer trusted, unknown token, undecodable recipient or minter (garbage, truncated, or well-formed XDR of a value that is not an address), amounts 2^127 / 2^128-1 / 2^128+1000 (bits 128..191 set) / 2^255, truncated / padded / non-canonical-offset payload, padded inner message, insufficient custody, failing application, deploy for a taken id or with empty name/symbol; then the conforming delivery (effects and consumption checked), the same delivery again, and again after re-approval (one time in three after ledger advancement up to the expiry of every temporary entry). distinct = (conforming kind, deviation, outcome)"));
+    rep.notes.insert("rule".into(), json!("one universe in eight first wires a service to a stand-in gateway whose validate_message answers true / false / void / u32 / i128 / string / symbol: it may act only on the boolean true. Per universe 5 rounds: a conforming delivery (transfer to a service-deployed token, release of a locked canonical asset, transfer with data to a destination application, remote deploy; origin chain drawn from the currently trusted chains while one chain's trust flips between rounds) and, before it, 13 of 31 single deviations, each delivered at a checkpoint together with the approval that matches it in every other respect: never approved, approved for other payload / id / source address / contract, approved for a (chain, id) pair that only coincides when joined with a delimiter, source chain or source address not the hub's, send-to-hub or out-of-range outer type, unsupported inner type, type words whose low byte is a supported tag but whose higher bytes are not zero, origin never trusted or no longer trusted, unknown token, undecodable recipient or minter (garbage, truncated, or well-formed XDR of a value that is not an address), amounts 2^127 / 2^128-1 / 2^128+1000 (bits 128..191 set) / 2^255, truncated / padded / non-canonical-offset payload, padded inner message, insufficient custody, failing application, deploy for a taken id or with empty name/symbol; then the conforming delivery (effects and consumption checked), the same delivery again, and again after re-approval (one time in three after ledger advancement up to the expiry of every temporary entry). distinct = (conforming kind, deviation, outcome)"));
 }
